@@ -239,7 +239,7 @@ func TestC07(t *testing.T) {
 			t.Fatalf("connect: %v", err)
 		}
 		defer writer.Close()
-		g := kit.NewTxnGen(s, kit.TxnCfg{MaxOps: 3, Named: true, RefBias: true, IndexBias: true, MaxRows: 5})
+		g := kit.NewTxnGen(s, withBig(t, kit.TxnCfg{MaxOps: 3, Named: true, RefBias: true, IndexBias: true, MaxRows: 5}))
 		state := func() kit.State {
 			st, err := srv.Snapshot()
 			if err != nil {
